@@ -5,6 +5,7 @@ import (
 	"fmt"
 	"math"
 	"math/big"
+	"time"
 
 	"gonum.org/v1/gonum/mat"
 	"gonum.org/v1/gonum/optimize/convex/lp"
@@ -196,6 +197,11 @@ func lpShow(c []float64, A [][]float64, b []float64) string {
 	}
 	return s
 }
+
+// lpRawRunsOff: set after the first report about the representation of A in
+// this process (the runs that read A through its raw storage are not bounded
+// by the counting matrix).
+var lpRawRunsOff bool
 
 const lpLoopPanic = "verif: lp.Simplex does not return"
 
@@ -403,6 +409,52 @@ func runLP(t *simrt.Tape, rc *RunCtx) *Violation {
 		}
 		_ = corpusCase
 		return &Violation{prop, sig, fmt.Sprintf("Simplex was still running after 3*10^5 element reads of A (a solved program of this size needs a few thousand)\n%s", rc.Instance["program"])}
+	}
+	// the same program with A handed over as a view into a wider matrix (a
+	// tableau [A | b | junk], Stride > Cols) and as a compact Dense: the answer
+	// may not depend on the representation of A. (Only after the counting
+	// matrix has shown that this program is solved at all.)
+	if pan == nil && !lpRawRunsOff {
+		wide := mat.NewDense(m, n+2, nil)
+		for i := range A {
+			for j := range A[i] {
+				wide.Set(i, j, A[i][j])
+			}
+			wide.Set(i, n, b[i])
+			wide.Set(i, n+1, 1e9)
+		}
+		for k, am := range []mat.Matrix{wide.Slice(0, m, 0, n), mat.DenseCopyOf(ad)} {
+			var f2 float64
+			var x2 []float64
+			var err2 error
+			var pan2 interface{}
+			// (this call reads A through its raw storage, so nothing counts
+			// its steps: should it fail to return - it cannot on a tree on
+			// which the counted call above returned, unless the two paths
+			// differ - a wall-clock limit ends the wait and the goroutine is
+			// abandoned)
+			done := make(chan struct{})
+			go func() {
+				defer close(done)
+				defer func() { pan2 = recover() }()
+				f2, x2, err2 = lp.Simplex(append([]float64(nil), c...), am, append([]float64(nil), b...), 1e-10, nil)
+			}()
+			select {
+			case <-done:
+			case <-time.After(3 * time.Second):
+				lpRawRunsOff = true // one report is enough; every further one would cost the wait again
+				return &Violation{prop, "lp/simplex/depends-on-representation-of-A", fmt.Sprintf("Simplex with A as %s has not returned after 3 s; with A behind the Matrix interface it returned F=%v X=%v err=%v\n%s", []string{"a view with Stride > Cols", "a compact *mat.Dense"}[k], optF, optX, err, rc.Instance["program"])}
+			}
+			rc.oracle("simplex-representation-of-A")
+			same := pan2 == nil && (err == nil) == (err2 == nil) && (err == nil || err.Error() == err2.Error()) && math.Float64bits(f2) == math.Float64bits(optF) && len(x2) == len(optX)
+			for j := range x2 {
+				same = same && math.Float64bits(x2[j]) == math.Float64bits(optX[j])
+			}
+			if !same {
+				lpRawRunsOff = true
+				return &Violation{prop, "lp/simplex/depends-on-representation-of-A", fmt.Sprintf("Simplex with A as %s returns F=%v X=%v err=%v (panic %v); with A behind the Matrix interface F=%v X=%v err=%v\n%s", []string{"a view with Stride > Cols", "a compact *mat.Dense"}[k], f2, x2, err2, pan2, optF, optX, err, rc.Instance["program"])}
+			}
+		}
 	}
 	rc.oracle("simplex-vs-exact-enumeration")
 	where := rc.Instance["program"].(string)
